@@ -56,3 +56,62 @@ def evaluate(pred: str, args: list, kwargs: dict, case: Any) -> bool:
 
 
 # ---- predicates ------------------------------------------------------------------------------------------
+_BS = chr(92)
+_SEPS = "\r\x0b\x0c\x1c\x1d\x1e\x85  "
+
+
+def single_backslash_hazard(s: str, indent: int = 0, pq: bool = False) -> bool:
+    """a backslash that is last, or is followed by a quote character or by 'n' (single-line printer/reader)"""
+    n = len(s)
+    for i in range(n):
+        if s[i] == _BS:
+            if i == n - 1:
+                return True
+            c = s[i + 1]
+            if c == "'" or c == '"' or c == "n":
+                return True
+    return False
+
+
+def single_cr_ff(s: str, indent: int = 0, pq: bool = False) -> bool:
+    """carriage return or form feed in a string without newline: printed raw, excluded by the STRING_LITERAL rule"""
+    return "\r" in s or "\f" in s
+
+
+def multi_all_lines_indented(s: str, indent: int = 0, pq: bool = False) -> bool:
+    """every line of a multi-line string starts with a blank: the reader's dedent removes the common blanks"""
+    for line in s.split("\n"):
+        if not line.startswith(" "):
+            return False
+    return True
+
+
+def multi_blank_last_line_indent0(s: str, indent: int = 0, pq: bool = False) -> bool:
+    """multi-line string whose last line is empty or blanks only, printed at indent 0: the closing delimiter line is
+    empty, str.splitlines drops it, and the reader takes the last content line for the delimiter line"""
+    last = s.split("\n")[-1]
+    for c in last:
+        if c != " ":
+            return False
+    return indent == 0
+
+
+def multi_splitlines_seps(s: str, indent: int = 0, pq: bool = False) -> bool:
+    """a str.splitlines() separator other than LF inside a multi-line string (printer splits on LF only)"""
+    for c in s:
+        if c in _SEPS:
+            return True
+    return False
+
+
+def posmark_name_unescaped(name: str, xr: int = 0, yr: int = 0, xo: int = 0, yo: int = 0) -> bool:
+    """position-mark name containing a quote, backslash, CR, LF or FF: __str__ prints it raw between single quotes"""
+    for c in name:
+        if c == "'" or c == _BS or c == "\n" or c == "\r" or c == "\f":
+            return True
+    return False
+
+
+def posmark_offset_4(name: str = "", xr: int = 0, yr: int = 0, xo: int = 0, yo: int = 0) -> bool:
+    """half-tile offset stored as 4 (documented alternative to 2) is printed as .5 and read back as 2"""
+    return xo == 4 or yo == 4
